@@ -587,7 +587,8 @@ class Decimal(DataType, dtypes.Decimal):
     """
 
     _exp: decimal.Decimal = dataclasses.field(init=False)
-    _ctx: decimal.Context = dataclasses.field(init=False)
+    # derived from precision and rounding; a Context compares by identity
+    _ctx: decimal.Context = dataclasses.field(init=False, compare=False)
 
     def __init__(  # pylint:disable=super-init-not-called
         self,
